@@ -144,10 +144,8 @@ func C05(m *sipsp.PSIPMsg, buf []byte, start, ret int) string {
 	if !bytes.Equal(m.RawMsg, buf[start:ret]) || len(m.RawMsg) != ret-start {
 		return fmt.Sprintf("RawMsg (len %d) is not buf[%d:%d]", len(m.RawMsg), start, ret)
 	}
-	// (the property fixes the bytes of the views, not that they share memory with the caller's buffer)
-	if len(m.Buf) != ret || !bytes.Equal(m.Buf, buf[:ret]) {
-		return fmt.Sprintf("Buf (len %d) is not buf[:%d]", len(m.Buf), ret)
-	}
+	// (the property fixes the bytes of the raw-message view; it says nothing about msg.Buf, which the
+	// doc comment only calls "a reference to buf[]")
 	// first line
 	fe := start
 	for fe < len(buf) && !isEOL(buf[fe]) {
@@ -243,10 +241,7 @@ func C05(m *sipsp.PSIPMsg, buf []byte, start, ret int) string {
 				break
 			}
 		}
-		if g == nil {
-			return fmt.Sprintf("GetHdr(%d) returned nil", t)
-		}
-		if g.Missing() {
+		if g == nil || g.Missing() { // ("If no corresponding header was parsed it returns nil")
 			if first >= 0 {
 				return fmt.Sprintf("GetHdr(%d) is missing but Hdrs[%d] has that type", t, first)
 			}
